@@ -10,7 +10,8 @@ EXPLANATION = ('The real LinearCredit / GeometricCredit / ReciprocalCredit.__cal
                'minimum (up to the schedule\'s own 4-decimal rounding) and credit(n+1) <= credit(n). AbstractGrader.apply_attempt_based_credit '
                'runs inside real grader calls (single and list results) with symbolic base grades and decides: every positive grade is multiplied '
                'by the (4-decimal rounded) schedule value, zeros stay zero, ok is recomputed, attempts < 1 count as 1, the note appears exactly '
-               'when some grade was reduced and the note is enabled, a missing attempt is a ConfigError.')
+               'when some grade was reduced and the note is enabled, a missing attempt is a ConfigError.'
+               ' With debug=True on list results the note must survive next to the debug log.')
 ASSUMPTIONS = ['LinearCredit parameters decrease_credit_after, decrease_credit_steps in 1..6 (enumerated), minimum_credit any real in [0,1]',
                'minimum guarantee is stated up to the 4-decimal rounding the schedule itself applies (5e-5): round(min,4) can lie below min',
                'in apply_attempt_based_credit harnesses either the schedule value or the base grades come from a finite palette so that '
